@@ -12,5 +12,6 @@ def run(ctx, rep):
     orderrules.check_noequal(ctx, rep)
     orderrules.check_antisym(ctx, rep)
     orderrules.check_compare_segments(ctx, rep)
+    orderrules.check_segment_oracle(ctx, rep)
     sweeprules.check_comparator(ctx, rep)
     orderrules.check_order_events(ctx, rep)
